@@ -63,6 +63,19 @@ theorem five_stage_highlight (p : Pipe.PSt) :
   refine ⟨fun h => by simp [fiveDataAccess, h], fun x h => ?_⟩
   simp only [fiveDataAccess, h, Bool.or_eq_true, decide_eq_true_eq]
 
+/-- Single-stage mode: an address is highlighted exactly when the last executed instruction (the one at the program
+    counter of the state the display register describes) is a load or a store, and it is `x[rs1] + imm` of that
+    instruction — shown modulo 2^32 by `address_shows`. -/
+theorem single_stage_highlight (s : St) (i : Instr) (hi : s.imem.instrAt s.pc = some i) :
+    (i.op.ty = .memI → singleDataAccess (some s) = some ((wrapU (s.regs i.rs1 : Int) : Int) + i.imm)) ∧
+    (i.op.ty = .s → singleDataAccess (some s) = some ((s.regs i.rs1 : Int) + i.imm)) ∧
+    (i.op.ty ≠ .memI → i.op.ty ≠ .s → singleDataAccess (some s) = none) ∧
+    singleDataAccess none = none := by
+  refine ⟨fun h => ?_, fun h => ?_, fun h1 h2 => ?_, rfl⟩
+  · simp [singleDataAccess, hi, h, accessRegs, aluCompute]
+  · simp [singleDataAccess, hi, h, accessRegs, aluCompute]
+  · simp [singleDataAccess, hi, h1, h2]
+
 /-! ### non-vacuity -/
 
 example : Reports (Stats.ofCounters 12 34 true none) 12 34 true := ⟨dec_spec 12, dec_spec 34, rfl⟩
